@@ -1,9 +1,12 @@
 (* C02 -- memory per datagram is bounded by its size, not by the counts it claims.
    Statements only; proofs in Proofs/AllocP.v, Proofs/PipeP.v.
-   PARTIAL: the theorems bound the number of slots / records the decoders pre-size or build (the
-   ghost quantity); the bytes the Go runtime really allocates are measured by the check. *)
+   c02_budget states the property's own formula on the ghost allocation estimate of Spec/Ghost.v (an upper
+   estimate of the bytes one DecodeFlow call allocates, computed along the decoders' path; the check compares
+   it with runtime.MemStats.TotalAlloc on every input it sends: measured <= estimate + SLACK).
+   PARTIAL: the bytes the Go runtime really allocates (GC, allocator rounding, runtime internals) are
+   measured, not modelled; the constants of the estimate are calibrated, not derived. *)
 From Coq Require Import Arith List NArith Bool.
-From GF Require Import Base.Res Base.Bytes Model.NF Model.NFv5 Model.SFlow Proofs.AllocP Proofs.PipeP.
+From GF Require Import Base.Res Base.Bytes Model.NF Model.NFv5 Model.SFlow Model.Pipe Spec.Ghost Proofs.AllocP Proofs.PipeP Proofs.GhostP.
 Import ListNotations.
 Open Scope N_scope.
 
@@ -43,3 +46,48 @@ Example c02_expanded_cap :
   dec_sample 3 44 (enc_be 4 1 ++ enc_be 4 0 ++ enc_be 4 1 ++ concat (map (enc_be 4) [1;1;0;0;1;0;2]) ++ enc_be 4 4294967295)
   = Err ETooMany.
 Proof. vm_compute. reflexivity. Qed.
+
+(* ---- THE PROPERTY's formula, on the ghost estimate ---------------------------------------------------
+   For EVERY pipe (sflow://, netflow://, flow://), EVERY pipe state (any template stores, built by any
+   history), EVERY exporter and EVERY byte string of at most 9000 bytes: the estimate c of what decoding
+   the datagram and converting it to flow messages allocates, plus the tolerance SLACK (1 MiB) of the
+   measured comparison, is at most 16 MiB + 256 x length x (1 + w), w = the number of fields of the widest
+   template the datagram references.  No hypothesis on any count or length field inside d. *)
+Theorem c02_budget : forall k st e d c w,
+  wfb d -> lenN d <= 9000 -> gh_pipe k st e d = (c, w) ->
+  c + SLACK <= 16 * 1048576 + 256 * lenN d * (1 + w).
+Proof. exact gh_pipe_property. Qed.
+Print Assumptions c02_budget.
+
+(* the NetFlow v9 / IPFIX part without the 9000-byte bound: at most C_REC + C_FLD x width per byte of the
+   message, plus the one set at which decoding may fail *)
+Theorem c02_nf_per_byte : forall st ver d c w,
+  gh_nf_body st ver d = (c, w) -> c <= lenN d * (C_REC + C_FLD * w) + T_ERR.
+Proof. exact gh_nf_body_bound. Qed.
+Print Assumptions c02_nf_per_byte.
+
+(* no count, length or value INSIDE a flow set can raise the estimate: behind the four bytes of the set
+   header only the number of bytes that follow matters *)
+Theorem c02_set_content_irrelevant : forall st dom ver (hdr x x' : bytes),
+  length hdr = 4%nat -> length x = length x' ->
+  gh_set st dom ver (hdr ++ x) = gh_set st dom ver (hdr ++ x').
+Proof. exact gh_set_content_irrelevant. Qed.
+Print Assumptions c02_set_content_irrelevant.
+
+(* w is the width of a template the datagram REFERENCES: one stored for the exporter under the set's own
+   (version, domain, id) *)
+Theorem c02_width_is_referenced : forall st dom ver d c w,
+  gh_set st dom ver d = (c, w) -> w = 0 \/ exists id t, store_get st (tkey ver dom id) = Some t /\ w = tmpl_width t.
+Proof. exact gh_set_width. Qed.
+Print Assumptions c02_width_is_referenced.
+
+(* non-vacuity: an IPFIX template of 3 fields (lengths 1, 0, 0), then a data set of 40 one-byte records:
+   the estimate is 40 records' worth, inside the budget and far above the fixed cost *)
+Example c02_budget_nonvacuous :
+  let e := {| eAddr := [10;0;0;1]; ePort := 2000 |} in
+  let t := [0;10; 0;36; 0;0;0;0; 0;0;0;1; 0;0;0;7;  0;2; 0;20; 1;0; 0;3; 0;1;0;1; 0;2;0;0; 0;3;0;0] in
+  let dd := [0;10; 0;60; 0;0;0;0; 0;0;0;2; 0;0;0;7;  1;0; 0;44] ++ repeat 1 40 in
+  let st := step_state init_pstate (pipe_step PKFlow ProdNF.empty_prodcfg init_pstate e 1 t) in
+  gh_pipe PKFlow st e dd = (C_0 + C_SET + 40 * (C_REC + C_FLD * 3), 3) /\
+  (fst (gh_pipe PKFlow st e dd) + SLACK <=? 16 * 1048576 + 256 * lenN dd * (1 + 3)) = true.
+Proof. vm_compute. split; reflexivity. Qed.
